@@ -54,10 +54,20 @@ def run_check(prop, repo, tier, jobs, seed, out=sys.stdout):
         if os.path.exists(p):
             os.remove(p)
     ctx = CheckContext(prop, os.path.abspath(repo), tier, jobs, seed)
+    from . import parallel as _par
+    del _par.ERRORS[:]
+
+    def first_error():
+        kind, msg = _par.ERRORS[0]
+        return 'ANALYSIS-ERROR property=%s kind=%s %s%s' % (
+            prop, kind, msg, ' (and %d more configuration(s))' % (len(_par.ERRORS) - 1) if len(_par.ERRORS) > 1 else '')
     try:
         mod = importlib.import_module('pwa.props.%s' % prop.lower())
         res = mod.check(ctx)
     except AnalysisError as e:
+        if _par.ERRORS and e.kind == 'instance-count':
+            print(first_error(), file=out)
+            return 2
         print('ANALYSIS-ERROR property=%s kind=%s %s%s' % (prop, e.kind, e.msg,
               (' at %s' % (e.loc,)) if getattr(e, 'loc', None) else ''), file=out)
         return 2
@@ -99,6 +109,13 @@ def run_check(prop, repo, tier, jobs, seed, out=sys.stdout):
         'rule': 'the repository source is parsed and interpreted abstractly on every run; nothing is imported or executed'})
     cov.setdefault('known_findings_matched', sorted(listed))
     cov.setdefault('notes', [n.get('msg') for n in notes[:20]])
+    if _par.ERRORS:
+        cov['configurations_not_analysed'] = len(_par.ERRORS)
+        cov['first_analysis_error'] = '%s: %s' % _par.ERRORS[0]
+        if not unlisted:
+            # nothing to report and part of the grid could not be followed: the run decides nothing
+            print(first_error(), file=out)
+            return 2
     evidence = {
         'property_id': prop, 'tier': tier, 'seed': seed, 'level': res.level, 'coverage': cov,
         'assumptions': res.assumptions, 'wall_s': round(time.time() - t0, 3), 'violations': len(unlisted),
@@ -118,6 +135,9 @@ def run_check(prop, repo, tier, jobs, seed, out=sys.stdout):
                   % (f0.get('file'), f0.get('line'), f0.get('rule'), f0.get('construct'), f0.get('discriminator'),
                      f0.get('msg'), len(unlisted[k]),
                      (' interpreted=' + ','.join(f0['call_path'][:12])) if f0.get('call_path') else ''), file=out)
+        if _par.ERRORS:
+            print('NOTE ' + first_error() + ' -- the violation(s) above were found on the configurations that '
+                  'could be analysed', file=out)
         return 1
     print('OK property=%s tier=%s wall=%.1fs %s' % (prop, tier, time.time() - t0,
           json.dumps({k: v for k, v in cov.items() if isinstance(v, (int, float, bool))})), file=out)
